@@ -14,7 +14,8 @@ def use_lt_contract(sess):
 
 
 class UpdateMin(Contract):
-    """update_min(a, b): None iff a is known and a <= b, else b (the new minimum)"""
+    """update_min(a, b): None iff a is known and a <= b, else b (the new minimum) -- for pairs that the order decides
+    (exactly one of <, ==, > holds: everything outside known finding F11-ii)"""
     target = "mosaik.scenario.update_min"
     property_ids = ["C08", "C06", "C05"]
     configure = "use_lt_contract"
@@ -40,7 +41,10 @@ class UpdateMin(Contract):
         if A.a is None:
             return result is A.b
         keep = Or(code_lt(A.a, A.b), ti_eq(A.a, A.b))
-        return And(Implies(keep, result is None), Implies(Not(keep), result is A.b))
+        # outside the zone of known finding F11-ii (neither <, == nor >: equal tiers, different cut-offs), where no
+        # answer is "the minimum" and the property says nothing
+        ordered = Or(keep, code_lt(A.b, A.a))
+        return Implies(ordered, And(Implies(keep, result is None), Implies(Not(keep), result is A.b)))
 
     def native_call(self, m):
         from mosaik.scenario import update_min
